@@ -152,10 +152,11 @@ Theorem C02_conn_reassembly :
     exists k, st_finished (c_base c) = firstn k (map snd (st_log (c_base c))).
 Proof. exact (@conn_reassembly). Qed.
 
-(** Per-emitter ORDER across the connect instant is refuted by the code as it is: one goroutine,
-    two events; the second is emitted after `state = Connected` and before the flush and overtakes
-    the parked first one ([window_sched]; finding connect-window-order:emit-between-connected-and-flush;
-    the live rig reproduces it deterministically by holding emitBuffered in a user handler). *)
+(** Per-emitter ORDER across the connect instant.  THE CODE BEFORE THE REPAIR ([cstep]: state read
+    outside sendBufferMu, direct send whenever Connected) did not keep it: one goroutine, two events;
+    the second is emitted after `state = Connected` and before the flush and overtakes the parked
+    first one ([window_sched]; the live window rig reproduced it deterministically: one goroutine
+    emits e0..e9, wire e3..e9,e0,e1,e2; fixed in /repo, see known_findings.txt). *)
 Theorem C02_connect_window_order_refuted :
   exists (tr : transport) (progs : list (list (spacket nat))) (sched : list caction),
     Forall (Forall (wf_packet (fun _ => Some 0) 0)) progs /\
@@ -181,6 +182,34 @@ Example C02_window_free_example :
                        [CEmit 0; CConnected; CFlush; CEmit 0; CBase DrGet] witness_progs))
   = [mkSP 1 []; mkSP 2 []].
 Proof. vm_compute. split; reflexivity. Qed.
+
+(** THE REPAIRED CODE ([cstep_fix]: send-or-park decided under sendBufferMu, direct only when
+    Connected and nothing is parked): every step of it is a step of the system above, so
+    C02_conn_contiguity / C02_conn_exactly_once / C02_conn_reassembly hold for it ... *)
+Theorem C02_conn_fixed_refines :
+  forall (data : Type) (declared : data -> option nat) (max_atts : nat)
+         (split : list (frame data) -> list (list (frame data)))
+         (tr : transport) (progs : list (list (spacket data))) (c : cstate data),
+    creachable_fix declared max_atts split tr progs c -> creachable declared max_atts split tr progs c.
+Proof. exact (@creachable_fix_old). Qed.
+
+(** ... and per-emitter order holds across the connect instant for ALL schedules, no side condition:
+    queue ++ sendBuffer is an interleaving of prefixes of the per-emitter sequences (by
+    C02_conn_contiguity the wire is a prefix of its frames). *)
+Theorem C02_connect_order :
+  forall (data : Type) (declared : data -> option nat) (max_atts : nat)
+         (split : list (frame data) -> list (list (frame data))),
+    (forall b, concat (split b) = b) ->
+  forall (tr : transport) (progs : list (list (spacket data))) (c : cstate data),
+    creachable_fix declared max_atts split tr progs c ->
+    pops progs (map fst (c_all c)) = Some (map snd (c_all c), st_em (c_base c)).
+Proof. exact (@conn_order_fixed). Qed.
+
+(** the schedule that broke the order before the repair, on the repaired system *)
+Example C02_connect_order_example :
+  map snd (c_all (crun_fix (fun _ : nat => Some 0) 0 (fun b => [b]) WS window_sched witness_progs))
+  = [mkSP 1 []; mkSP 2 []].
+Proof. vm_compute. reflexivity. Qed.
 
 (** (d) THE RECEIVER WITH SEVERAL CONCURRENT DELIVERERS (Sio/PipelineRecv.v; two transports of one
     socket call OnPacket at the same time in the upgrade window; one OnPacket call is one parserMu
